@@ -133,6 +133,31 @@ def profileHeader (rows : List (String × Seq)) : List Byte := firstOccurrences 
 def profileCount (rows : List (String × Seq)) (L : Nat) (r : Byte) (site : Int) : Option Nat :=
   if r ∈ rows.flatMap Prod.snd ∧ 0 ≤ site ∧ site < L then some (profileCountAt rows site.toNat r) else none
 
+/-- does the length check of the unique-gap / unique-mutation counters accept a profile built from `prows`
+(sites `Lp`) for an alignment of `L` sites: every character of the profile has `L` counters -/
+def profileFits (prows : List (String × Seq)) (Lp L : Nat) : Bool := (prows.flatMap Prod.snd).isEmpty || Lp == L
+
+/-- `NumGapsUniquePerSequence(profile)` for row `i`: gaps that are the only one of their column; gaps at sites
+where the profile has no gap; gaps that are both -/
+def gapsWithProfileOf (rows prows : List (String × Seq)) (L : Nat) (i : Nat) : Nat × Nat × Nat :=
+  let isGap := fun j => (column rows j).getD i 0 == 45
+  let uniq := fun j => (column rows j).count 45 == 1
+  let isNew := fun j => profileCountAt prows j 45 == 0
+  (((List.range L).filter fun j => isGap j && uniq j).length,
+   ((List.range L).filter fun j => isGap j && isNew j).length,
+   ((List.range L).filter fun j => isGap j && uniq j && isNew j).length)
+
+/-- `NumMutationsUniquePerSequence(profile)` for row `i`: characters (neither gap nor wildcard) occurring once
+in their column; characters the profile does not have at that site; both -/
+def mutationsWithProfileOf (all : Byte) (rows prows : List (String × Seq)) (L : Nat) (i : Nat) : Nat × Nat × Nat :=
+  let ch := fun j => (column rows j).getD i 0
+  let counted := fun j => ch j != all && ch j != 45
+  let uniq := fun j => (column rows j).count (ch j) == 1
+  let isNew := fun j => profileCountAt prows j (ch j) == 0
+  (((List.range L).filter fun j => counted j && uniq j).length,
+   ((List.range L).filter fun j => counted j && isNew j).length,
+   ((List.range L).filter fun j => counted j && uniq j && isNew j).length)
+
 /-! ### differences with a reference sequence -/
 
 /-- what a nucleotide character stands for: an IUPAC letter (either case) ↦ its bases (in the order A, C, G, T);
